@@ -38,8 +38,9 @@ RULE = ("registry / taskmanager / requestcache / service: random op sequences (l
         "distinct = distinct op sequence, non-trivial = registry: contains a delivery query, taskmanager: >= 4 ops and a "
         "successful register, requestcache: contains an add, service: contains an unload_overlay; unload-static: "
         "non-trivial only with an open exit socket; "
-        "scenarios: (overlay class, endpoint stack, scenario family, target role, unload trigger) with the trigger either "
-        "a packet index of the run or a virtual time; distinct = distinct tuple; non-trivial = the unloaded overlay had "
+        "scenarios: (overlay class, endpoint stack, scenario family, target role, unload trigger, who requests the unload) with "
+        "the trigger a packet index, a virtual time, a loop iteration, or k iterations / t seconds after a marked event; "
+        "distinct = distinct tuple; non-trivial = the unloaded overlay had "
         "sent or received at least one datagram, or owned an unfinished task other than the built-in periodic ones, when "
         "unload was requested")
 TRUSTED_BASE = [
@@ -178,6 +179,9 @@ class Sim:
                                           or m is getattr(ov, "request_cache", None)) and not f.done()
                                       and name not in builtin)
 
+        finished = self.loop.create_future()
+        self._unload_task = finished
+
         async def do():
             try:
                 svc = getattr(self.target, "service", None)
@@ -187,14 +191,36 @@ class Sim:
                     await ov.unload()
             except Exception as e:  # noqa: BLE001
                 self.unload_error = f"{type(e).__name__}: {e}"
-            self.unload_done = self.loop.time()
+            except asyncio.CancelledError:
+                self.stats["unload_task_cancelled"] = 1       # judged from this moment on all the same
+                raise
+            finally:
+                self.unload_done = self.loop.time()
+                if not finished.done():
+                    finished.set_result(None)
 
-        if getattr(self, "self_unload", False):
-            # a self-unloading overlay: the unload is awaited by one of the overlay's OWN tasks (a periodic task or a
-            # message handler deciding to leave)
-            self._unload_task = ov.register_anonymous_task("application decides to leave", do)
+        mode = getattr(self, "self_unload", False)
+        rc = getattr(ov, "request_cache", None)
+        if mode == "periodic":
+            # a periodic task of the overlay decides to leave in its first round; its later rounds (there must be none)
+            # would go on walking
+            state = {"rounds": 0}
+            others = [nd.base.wan_address for nd in self.nodes if nd is not self.target] or [("10.9.9.9", 9)]
+
+            async def maintenance():
+                state["rounds"] += 1
+                if state["rounds"] == 1:
+                    await do()
+                else:
+                    ov.walk_to(others[0])
+            ov.register_task("application maintenance", maintenance, interval=2.0, delay=0)
+        elif mode == "cache-task" and rc is not None:
+            rc.register_anonymous_task("application decides to leave", do)      # a task of the overlay's request cache
+        elif mode:
+            # one of the overlay's OWN tasks (e.g. an async message handler) awaits the unload
+            ov.register_anonymous_task("application decides to leave", do)
         else:
-            self._unload_task = asyncio.ensure_future(do())
+            asyncio.ensure_future(do())
 
     def handler_entered(self, node, kind, msg_id):
         if node is self.target and self.after_unload():
@@ -332,7 +358,24 @@ def build_node(sim, cls, stack, flags=None, companion=False):
     from ipv8.peerdiscovery.network import Network
     rec = make_endpoint_class()()
     rec.open()
-    endpoint = TunnelEndpoint(rec) if stack == "tunnel-endpoint" else rec
+    extra = []
+    if stack == "tunnel-endpoint":
+        endpoint = TunnelEndpoint(rec)
+    elif stack == "statistics-endpoint":
+        from ipv8.messaging.interfaces.statistics_endpoint import StatisticsEndpoint
+        endpoint = StatisticsEndpoint(rec)
+    elif stack == "dispatcher":
+        # the endpoint class of every default service; its two interfaces are mock endpoints here (no real UDP)
+        from ipv8.messaging.interfaces.dispatcher.endpoint import DispatcherEndpoint
+        rec2 = make_endpoint_class()()
+        rec2.open()
+        endpoint = DispatcherEndpoint([])
+        endpoint.interfaces = {"UDPIPv4": rec, "UDPIPv6": rec2}
+        endpoint.interface_order = ["UDPIPv4", "UDPIPv6"]
+        endpoint._preferred_interface = rec  # noqa: SLF001
+        extra = [rec2]
+    else:
+        endpoint = rec
     peer = Peer(default_eccrypto.generate_key("curve25519"), rec.wan_address)
     settings = cls.settings_class(my_peer=peer, endpoint=endpoint, network=Network())   # DEFAULT settings
     name = cls.__name__
@@ -347,6 +390,9 @@ def build_node(sim, cls, stack, flags=None, companion=False):
     overlay.my_estimated_lan = rec.lan_address
     node = Node(sim, overlay, endpoint, rec)
     node.companion = None
+    node.extra_bases = extra
+    for e in extra:
+        e.node = node
     add_bootstrappers(overlay)
     if companion and stack == "tunnel-endpoint":
         # a second overlay of the same application that sends anonymously (shipped setting `anonymize=True`): its
@@ -906,7 +952,9 @@ async def _scenario_main(sim, cls, spec, rng, dry):
     wire_bootstrappers(nodes)
     sim.socket_baseline = count_socket_fds()
     sim.silence = spec.get("silence", "none")
-    sim.self_unload = bool(spec.get("self_unload"))
+    sim.self_unload = spec.get("self_unload") or False
+    if sim.self_unload is True:
+        sim.self_unload = "own-task"
     if not dry:
         sim.target = target
         trig = spec["trigger"]
@@ -935,8 +983,6 @@ async def _scenario_main(sim, cls, spec, rng, dry):
                     f"{cls.__name__}.unload() had not returned 600 virtual s after it was requested"
                     + (" from inside one of the overlay's own tasks" if getattr(sim, "self_unload", False) else ""))
         sim.unload_done = sim.loop.time()
-    except asyncio.CancelledError:
-        pass            # the overlay's own task that awaited the unload ends cancelled (it was one of the tracked tasks)
     if sim.unload_error:
         sim.violate("unload:raised", f"{cls.__name__}.unload() raised {sim.unload_error}")
     ov = target.overlay
@@ -1004,6 +1050,9 @@ def late_datagrams(sim, target, nodes, rng, replay_only=False):
     wrapper = target.endpoint if target.endpoint is not ep and hasattr(target.endpoint, "set_tunnel_community") else None
     for pkt in seen[-400:]:
         guarded(deliver, pkt)
+    for e in getattr(target, "extra_bases", []):
+        for pkt in seen[-60:] + [(others[0], target.prefix + bytes([245]) + b"\x00" * 30)]:
+            guarded(e.notify_listeners, pkt)       # the other interface of a DispatcherEndpoint
     if wrapper is not None:
         # datagrams that come out of a tunnel are delivered by the TunnelEndpoint itself (other code path)
         for pkt in seen[-40:] + [(others[0], target.prefix + bytes([245]) + b"\x00" * 30)]:
@@ -1089,7 +1138,7 @@ def scan_coroutines(sim, target):
     ov = target.overlay
     owned = sim.owned_managers()
     for task in asyncio.all_tasks(sim.loop):
-        if task.done() or task is sim._unload_task or any(task is j for j in sim.app_jobs):  # noqa: SLF001
+        if task.done() or any(task is j for j in sim.app_jobs):
             continue        # application-owned API calls are judged by what they make the overlay do (sends), not here
         coro = task.get_coro()
         depth = 0
@@ -1624,6 +1673,69 @@ def tm_exec(lines):
     return impl, kinds, findings
 
 
+def tm_self_periodic_case(rng, on_cache):
+    """A PERIODIC task that shuts its own manager down in round k (siblings of several kinds around it): the shutdown has to
+    return to it, and no round may follow.  `on_cache`: the manager is a RequestCache and `shutdown()` is used."""
+    import vclock
+    loop = vclock.new_loop()
+    findings = []
+    k = rng.randrange(1, 4)
+    ivl, delay = rng.choice([1.0, 2.0, 5.0]), rng.choice([0, 1.0])
+    siblings = [(rng.choice(["imm", "interval", "delayed", "long"]), rng.choice([0, 1, 2])) for _ in range(rng.randrange(0, 4))]
+    desc = f"periodic task (interval {ivl}, delay {delay}) calls {'RequestCache.shutdown' if on_cache else 'shutdown_task_manager'} in round {k}, siblings {siblings}"
+
+    async def main():
+        from asyncio import CancelledError, sleep
+
+        from ipv8.requestcache import RequestCache
+        from ipv8.taskmanager import TaskManager
+        tm = RequestCache() if on_cache else TaskManager()
+        st = {"rounds": 0, "returned": None, "late": 0}
+
+        async def periodic():
+            st["rounds"] += 1
+            if st["returned"] is not None:
+                st["late"] += 1
+            if st["rounds"] == k:
+                await (tm.shutdown() if on_cache else tm.shutdown_task_manager())
+                st["returned"] = loop.time()
+
+        async def long_body(stub):
+            try:
+                await sleep(10 ** 7)
+            except CancelledError:
+                if stub:
+                    await sleep(stub)
+                raise
+
+        for i, (kind, stub) in enumerate(siblings):
+            if kind == "imm":
+                tm.register_task(f"s{i}", lambda: None)
+            elif kind == "interval":
+                tm.register_task(f"s{i}", lambda: None, interval=1.0 + stub)
+            elif kind == "delayed":
+                tm.register_task(f"s{i}", lambda: None, delay=30.0)
+            else:
+                tm.register_task(f"s{i}", long_body, stub)
+        tm.register_task("maintenance", periodic, interval=ivl, delay=delay)
+        await sleep(ivl * k + delay + 40)
+        if st["returned"] is None:
+            findings.append(("shutdown_task_manager:never-returned", f"the shutdown never returned to its caller: {desc}"))
+        await sleep(120)
+        if st["late"]:
+            findings.append(("shutdown_task_manager:own-periodic-task-survived",
+                             f"{st['late']} more round(s) of the periodic task ran after the shutdown it had awaited returned: {desc}"))
+
+    try:
+        loop.run_until_complete(main())
+    finally:
+        drain(loop)
+        vclock.uninstall()
+        loop.close()
+        asyncio.set_event_loop(None)
+    return desc, findings
+
+
 def tm_case(ctx: Ctx, rng, n_ops):
     lines = tm_gen(rng, n_ops)
     impl, kinds, findings = tm_exec(lines)
@@ -1830,6 +1942,8 @@ def unload_static_case(cls_name, stack, with_exit):
         heard["self"] = heard["proxy"] = 0
         for p in (node.prefix, other.prefix, b"\x00\x02" + b"\x63" * 20):
             guarded(node.base.notify_listeners, (other.base.wan_address, p + b"\xf5" + b"\x00" * 40))
+            for e in node.extra_bases:
+                guarded(e.notify_listeners, (other.base.wan_address, p + b"\xf5" + b"\x00" * 40))
         await asyncio.sleep(20.0)
         rc = getattr(ov, "request_cache", None)
         db = getattr(ov, "database", None)
@@ -1841,7 +1955,7 @@ def unload_static_case(cls_name, stack, with_exit):
                        f"db={int(db is None or db._connection is None)} "  # noqa: SLF001
                        f"open={1 if (open_tr or live_es) else 0} tables={tables} "
                        f"ref={int(getattr(node.endpoint, 'tunnel_community', None) is ov)}")
-        out["line"] = f"u {cls_name} {int(stack == 'tunnel-endpoint')} {ov.settings.remove_tunnel_delay if hasattr(ov, 'settings') else 5} 0 0 {n_exit} {n_exit}"
+        out["line"] = f"u {cls_name} {STACK_CODE[stack]} {ov.settings.remove_tunnel_delay if hasattr(ov, 'settings') else 5} 0 0 {n_exit} {n_exit}"
         await aguarded(other.overlay.unload())
 
     try:
@@ -1866,7 +1980,8 @@ def unload_static_case(cls_name, stack, with_exit):
 # ======================================================================================================
 # part 3: orchestration
 # ======================================================================================================
-STACKS = ["plain", "tunnel-endpoint"]
+STACKS = ["plain", "tunnel-endpoint", "statistics-endpoint", "dispatcher"]
+STACK_CODE = {"plain": 0, "tunnel-endpoint": 1, "statistics-endpoint": 2, "dispatcher": 0}
 
 
 def scenario_specs(ctx: Ctx, rng, per_combo_steps, per_combo_times, steps_cache):
@@ -1875,6 +1990,9 @@ def scenario_specs(ctx: Ctx, rng, per_combo_steps, per_combo_times, steps_cache)
     for cls in classes:
         for family in scenario_families(cls):
             for stack in STACKS:
+                light = stack in ("statistics-endpoint", "dispatcher")   # wrappers that only matter for (de)registration
+                if light and family not in ("intro", "discovery", "dht"):
+                    continue
                 if family == "anon" and stack != "tunnel-endpoint":
                     continue
                 if family == "inflight":
@@ -1895,13 +2013,13 @@ def scenario_specs(ctx: Ctx, rng, per_combo_steps, per_combo_times, steps_cache)
                     total = steps_cache[key]
                     send_iters = steps_cache[("iters",) + key]
                     if per_combo_steps is None:
-                        ks = list(range(total + 1))
+                        ks = list(range(0, total + 1, 4 if light else 1))
                     else:
-                        ks = sorted({rng.randrange(total + 1) for _ in range(per_combo_steps)})
+                        ks = sorted({rng.randrange(total + 1) for _ in range(4 if light else per_combo_steps)})
                     for k in ks:
                         yield {**base, "target": rng.randrange(n) if per_combo_steps is not None else None,
                                "trigger": ["step", k]}
-                    for _ in range(per_combo_times):
+                    for _ in range(1 if light else per_combo_times):
                         yield {**base, "target": rng.randrange(n), "trigger": ["time", round(rng.uniform(0.0, 16.0), 3)]}
                     yield {**base, "target": rng.randrange(n), "trigger": ["idle"]}
                     if family == "intro":
@@ -1966,8 +2084,9 @@ def inflight_specs(cls, stack, rng, deep):
 
 def run_one_scenario(ctx: Ctx, spec):
     if "self_unload" not in spec and ctx.replay_input is None:
-        spec = {**spec, "self_unload": ctx.rng.random() < 0.15}
-    ctx.count("unload-requested-from:" + ("own-task" if spec.get("self_unload") else "outside"))
+        r = ctx.rng.random()
+        spec = {**spec, "self_unload": "own-task" if r < 0.06 else "periodic" if r < 0.13 else "cache-task" if r < 0.18 else False}
+    ctx.count("unload-requested-from:" + (str(spec.get("self_unload")) if spec.get("self_unload") else "outside"))
     viol, st = run_scenario(spec)
     trig = spec["trigger"]
     ctx.count(f"scenario:{spec['cls']}")
@@ -1982,7 +2101,7 @@ def run_one_scenario(ctx: Ctx, spec):
                                      "1-9" if st["pre_sent"] + st["pre_recv"] < 10 else "10+"))
     nontrivial = (st["pre_sent"] + st["pre_recv"] > 0) or st["pre_tasks"] > 0      # RULE: traffic or a protocol task pending
     ctx.case((spec["cls"], spec["stack"], spec["family"], spec["target"], tuple(trig), spec["hops"], spec.get("silence"),
-              bool(spec.get("self_unload"))), nontrivial)
+              str(spec.get("self_unload") or "")), nontrivial)
     for sig, what in viol:
         ctx.count("violation:" + sig)
         ctx.oracle_fail(sig, f"[{spec['cls']} on {spec['stack']} endpoint, scenario {spec['family']}, node {spec['target']}, "
@@ -2050,6 +2169,15 @@ def run_registry(ctx: Ctx, rng, n_cases, use_model):
 
 def run_tm(ctx: Ctx, rng, n_cases, use_model):
     all_lines, all_impl, starts = [], [], []
+    for i in range(max(12, n_cases // 25)):
+        sub_seed = rng.getrandbits(32)
+        on_cache = i % 3 == 2
+        desc, findings = tm_self_periodic_case(random.Random(sub_seed), on_cache)
+        ctx.count("tm-self-periodic:" + ("request-cache" if on_cache else "task-manager"))
+        ctx.case(("tm-self-periodic", desc), True)
+        for sig, what in findings:
+            ctx.count("violation:" + sig)
+            ctx.oracle_fail(sig, what, {"kind": "tm-self-periodic", "seed": sub_seed, "on_cache": on_cache})
     for _ in range(n_cases):
         n_ops = rng.randrange(4, 40)
         lines, impl, kinds, findings = tm_case(ctx, rng, n_ops)
@@ -2275,6 +2403,12 @@ def replay(ctx: Ctx, rec: dict):
         for sig, what in findings:
             ctx.oracle_fail(sig, what, r)
         print(f"replay TaskManager sequence ({len(lines)} ops): {'property FAILS: ' + '; '.join(w for _, w in findings) if findings else 'property holds'}")
+        ctx.case(("replay",), True)
+    elif kind == "tm-self-periodic":
+        desc, findings = tm_self_periodic_case(random.Random(r["seed"]), r["on_cache"])
+        for sig, what in findings:
+            ctx.oracle_fail(sig, what, r)
+        print(f"replay {desc}: {'property FAILS: ' + '; '.join(w for _, w in findings) if findings else 'property holds'}")
         ctx.case(("replay",), True)
     elif kind == "cache-seq":
         lines = r["lines"]
